@@ -187,7 +187,7 @@ def draw_bins(rng, K, NFFT, P, real):
 def cases(c):
     rng = c.rng('cases')
     out = []
-    n = 1200 if c.tier == 'quick' else 48000
+    n = 1200 if c.tier == 'quick' else 192000
     for i in range(n):
         real = bool(rng.integers(0, 3) == 0)
         P = int(rng.integers(3, 17))
@@ -204,7 +204,7 @@ def cases(c):
         out.append({'fn': 'exact', 'real': real, 'P': P, 'K': K, 'NFFT': NFFT, 'N': N, 'bins': bins,
                     'method': gen.pick(rng, ['music', 'ev']), 'form': gen.pick(rng, ['function', 'class']),
                     'fs': gen.pick(rng, [1.0, 2.0, 1000.0]), 'amp10': int(gen.pick(rng, [0, 0, 0, -3, -7, 4])), 'i': i})
-    for i in range(700 if c.tier == 'quick' else 30000):
+    for i in range(700 if c.tier == 'quick' else 120000):
         P = int(rng.integers(3, 17))
         N = int(rng.integers(2 * P, 129 if i % 5 else 200))
         out.append({'fn': 'noisy', 'P': P, 'N': N, 'cplx': int(rng.integers(0, 2)),
